@@ -89,6 +89,21 @@ def build_replayer(ov, workdir):
     return dst, ""
 
 
+def run_search(binpath, harness, timeout=900):
+    try:
+        p = subprocess.run([binpath, harness, "search"], stdout=subprocess.PIPE, stderr=subprocess.PIPE, text=True,
+                           timeout=timeout)
+    except subprocess.TimeoutExpired:
+        return {"reproduced": False, "detail": "native witness search timed out"}
+    for line in p.stdout.splitlines():
+        if line.startswith("{"):
+            try:
+                return json.loads(line)
+            except ValueError:
+                pass
+    return {"reproduced": False, "detail": "witness search gave no result: %s" % p.stderr[-300:]}
+
+
 def run_replayer(binpath, harness, vals, timeout=120):
     flat = []
     for v in vals:
@@ -158,15 +173,6 @@ def main(argv):
                                      timeout_s=tmo, mem_gb=h.get("mem_gb", 14),
                                      extra_args=extra, cbmc_args=h.get("cbmc_args"),
                                      loop_rules=h.get("loop_rules"))
-                if r["verdict"] == "violation":
-                    # second run of the failing harness only: ask CBMC for the concrete assignment
-                    r2 = kani.run_harness(ov, h["package"], h["mod"] + "::" + h["name"], tgt,
-                                          os.path.join(logdir, h["name"] + ".playback.log"),
-                                          timeout_s=tmo * 3, mem_gb=h.get("mem_gb", 14),
-                                          extra_args=extra, cbmc_args=h.get("cbmc_args"), playback=True,
-                                          loop_rules=h.get("loop_rules"))
-                    r["playback"] = r2["playback"]
-                    r["wall_s"] += r2["wall_s"]
             return r
 
         results = []
@@ -180,10 +186,44 @@ def main(argv):
                 log("[%s] %-34s %-12s %6.1fs  checks=%d %s" % (
                     pid, h["name"], r["verdict"], r["wall_s"], r["checks_total"], r.get("reason", "")))
         results.sort(key=lambda r: r["harness"])
+        # second run of each failing harness, one at a time (the trace output is large): ask CBMC
+        # for the concrete assignment
+        replayer = None
+        for r in results:
+            if r["verdict"] != "violation":
+                continue
+            h = r["spec"]
+            if h.get("witness") == "search":
+                # small scenario space: find the natively reproducing assignment by exhaustive native
+                # search instead of CBMC trace generation (15-20 min on these formulas)
+                if replayer is None:
+                    replayer, err = build_replayer(ov, workdir)
+                    if replayer is None:
+                        log("replayer build failed:\n" + err[-2000:])
+                        continue
+                rep = run_search(replayer, r["harness"])
+                if rep.get("reproduced"):
+                    r["playback"] = [[[v] for v in rep.get("vals", [])]]
+                log("[%s] %-34s witness search: %s" % (pid, h["name"], "found" if rep.get("reproduced") else rep.get("detail")))
+                continue
+            tgt = os.path.join(scratch, "kani-tgt", h["name"])
+            extra = list(h.get("kani_args", []))
+            if h.get("no_mem_checks", True):
+                extra += ["-Z", "unstable-options", "--no-memory-safety-checks"]
+            tmo = h["timeout"][0 if args.tier == "quick" else 1]
+            with Lock(tgt + ".lock"):
+                r2 = kani.run_harness(ov, h["package"], h["mod"] + "::" + h["name"], tgt,
+                                      os.path.join(logdir, h["name"] + ".playback.log"),
+                                      timeout_s=tmo * 3, mem_gb=44,
+                                      extra_args=extra, cbmc_args=h.get("cbmc_args"), playback=True,
+                                      loop_rules=h.get("loop_rules"))
+            r["playback"] = r2["playback"]
+            r["wall_s"] += r2["wall_s"]
+            log("[%s] %-34s playback      %6.1fs  %d candidate assignment(s)" % (
+                pid, h["name"], r2["wall_s"], len(r2["playback"])))
 
         findings, fixed = load_known()
         violations, known_hits, inconclusive = [], [], []
-        replayer = None
         for r in results:
             if r["verdict"] == "inconclusive":
                 inconclusive.append(r)
